@@ -79,3 +79,8 @@ func Bool(b bool) string {
 }
 
 func Int(i int) string { return strconv.Itoa(i) }
+
+// Stat writes a generator-statistics line ("#key value") through the same buffered writer.
+func Stat(key string, value int) {
+	fmt.Fprintf(out, "#%s %d\n", key, value)
+}
